@@ -190,13 +190,23 @@ def lookupForced (cond : Ann → Except Err Bool) : List Ann → Except Err (Opt
     | .ok true => .ok (some c)
     | .ok false => lookupForced cond cs
 
+/-- the test of `changeTree.pruneChanges`: the root descends from `h`, or is announced by an ancestor of `h` -/
+def onBranch (isD : IsD) (h : Blk) (r : Node) : Except Err Bool :=
+  match isD h r.ann.blk with
+  | none => .error .anc
+  | some true => .ok true
+  | some false =>
+    match isD r.ann.blk h with
+    | none => .error .anc
+    | some d => .ok d
+
 /-- `changeTree.pruneChanges` -/
 def schedPrune (isD : IsD) (h : Blk) : List Node → Except Err (List Node)
   | [] => .ok []
   | r :: rs =>
-    match isD h r.ann.blk with
-    | none => .error .anc
-    | some d =>
+    match onBranch isD h r with
+    | .error e => .error e
+    | .ok d =>
       match schedPrune isD h rs with
       | .error e => .error e
       | .ok l => .ok (if d then r :: l else l)
@@ -293,8 +303,7 @@ def applyForced (t : Tree) (s : St) (b : Blk) : Except Err St :=
     | .error e => .error e
     | .ok (some _) => .error .pending
     | .ok none =>
-      let s1 := { s with change := (s.setId, fc.best) :: s.change }
-      let s2 := startNext s1 fc.tag (eff t fc)
+      let s2 := startNext s fc.tag fc.best
       .ok { s2 with forced := [], roots := [] }
 
 /-- `imp b`: Service.handleBlock = AddBlock, HandleDigests, ApplyForcedChanges -/
@@ -320,7 +329,7 @@ def applyScheduled (t : Tree) (s : St) (b : Blk) : Except Err St :=
     else match schedFindApplicable t (isDesc t s1) b (num t b) s1.roots with
       | .error e => .error e  -- NB the pruned forced slice is kept
       | .ok (none, roots') => .ok { s1 with roots := roots' }
-      | .ok (some r, roots') => .ok (startNext { s1 with roots := roots' } r.ann.tag (eff t r.ann))
+      | .ok (some r, roots') => .ok (startNext { s1 with roots := roots' } r.ann.tag (num t b))
 
 /-- state after a failing `ApplyScheduledChanges` -/
 def applyScheduledPartial (t : Tree) (s : St) (b : Blk) : St :=
